@@ -694,6 +694,34 @@ def _ptask_wrap(X) -> str:
     return kind
 
 
+def _task_files_predicates(X) -> list[str]:
+    """The predicate with which each `pytask_collect_file` implementation decides that a path is a task module
+    (collect.py imports the module, task.py picks up the @task functions): both must be `path.match(pattern)` over
+    `session.config["task_files"]`."""
+    E = X.ExtractError
+    out = []
+    for fname in ("collect.py", "task.py"):
+        fn = X._func(X._parse(fname), "pytask_collect_file")
+        ifs = [st for st in fn.body if isinstance(st, ast.If)]
+        if len(ifs) != 1:
+            raise E(f"{fname} pytask_collect_file: expected one top-level condition")
+        t = ifs[0].test
+        first = t.values[0] if isinstance(t, ast.BoolOp) and isinstance(t.op, ast.And) else t
+        u = _u(first)
+        if u == "any((path.match(pattern) for pattern in session.config['task_files']))":
+            out.append(".pathMatch")
+        else:
+            raise E(f"{fname} pytask_collect_file: task module predicate is `{u[:90]}`, not path.match(pattern) over config['task_files']")
+        if isinstance(t, ast.BoolOp):
+            rest = [_u(v) for v in t.values[1:]]
+            if fname != "task.py" or rest != ["COLLECTED_TASKS[path]"]:
+                raise E(f"{fname} pytask_collect_file: extra conditions {rest}")
+        tail = [st for st in fn.body if isinstance(st, ast.Return)]
+        if len(tail) != 1 or _u(tail[0]) != "return None":
+            raise E(f"{fname} pytask_collect_file: a non-matching path no longer returns None")
+    return out
+
+
 def collect_gen_lines(X) -> list[str]:
     wbody, dedup = _walk_facts(X)
     steps = _collect_steps(X)
@@ -716,6 +744,8 @@ def collect_gen_lines(X) -> list[str]:
          "inductive IStep | tryPkgName | cachePkg | importUsingSpec | returnIfModule | nameFromPath | cachePath | specFromFile | raiseIfNoSpec | execModule | insertMissing | returnModule",
          "inductive SFilter | isTask | hasFullName",
          "inductive PWrap | noTaskMark | noMeta",
+         "inductive TFPred | pathMatch",
+         "deriving DecidableEq",
          "/-- loop body of `_not_ignored_paths` (collect.py). -/",
          f"def walkBody : List WStmt := {_lean_wlist(wbody)}",
          "/-- `_collect_from_paths` removes repeated path arguments before the walk. -/",
@@ -737,6 +767,8 @@ def collect_gen_lines(X) -> list[str]:
          f"def shortFilter : List SFilter := [{', '.join(sconds)}]",
          "/-- `_collect_from_tasks` wraps a function with the task decorator when … -/",
          f"def ptaskWrapWhen : PWrap := {_ptask_wrap(X)}",
+         "/-- how `collect.py::pytask_collect_file` and `task.py::pytask_collect_file` test a path against `task_files`. -/",
+         f"def taskFilesPredicates : List TFPred := [{', '.join(_task_files_predicates(X))}]",
          "end Col", ""]
     return L
 
